@@ -215,6 +215,16 @@ func (sc *Scope) expr(x ast.Expr) Val {
 		return Val{T: a.T, L: []string{a.sRef(), bvadd(a.sOff(), lo), app("bvsub", hi, lo), app("bvsub", a.sCap(), lo)}}
 	case *ast.CallExpr:
 		return sc.call(n)
+	case *ast.TypeAssertExpr:
+		v := sc.expr(n.X)
+		t := e.ctx.parseType(sc.pkg, types.ExprString(n.Type))
+		if t == nil || !isIface(v.T) {
+			return sc.fail("bad type assertion in spec")
+		}
+		if len(layout(t)) == 1 {
+			return Val{T: t, L: []string{v.L[1]}}
+		}
+		return sc.fail("type assertion to non-reference type in spec")
 	case *ast.StarExpr:
 		v := sc.expr(n.X)
 		if v.Loc != nil {
